@@ -521,34 +521,76 @@ def gen_offset(rng):
     return {"op": "offset", "lines": lines, "target": target, "inv": rng.random() < 0.5, "req": rng.random() < 0.3}
 
 
+def sep_free(d, c):
+    """IV.TextFormats.sepFree: d does not occur in the cell followed by all but the last character of d"""
+    return d not in c + d[:-1]
+
+
+def delim_around(rng, c, name0):
+    """optionally: a sufficient max_splits, junk lines + heading_ignore, footer lines + trailing_ignore
+    (the hypotheses DelimTable.ok / WsTable.ok of Props.C15.delimited_roundtrip[_ws])"""
+    lines = c["lines"]
+    n = max([len(c["names"])] + [len(r) for r in c["rows"]])
+    if rng.random() < 0.4:
+        c["m"] = rng.choice([n - 1, n, n + 2])
+    if rng.random() < 0.3:
+        junk = [j for j in (rng.choice(JUNK) for _ in range(rng.choice([1, 2, 3]))) if not j.strip().startswith(name0)]
+        lines = junk + lines
+        c["hi"] = [rng.choice([name0, " " + name0, name0[:1]])]
+        if any(j.strip().startswith(c["hi"][0].strip()) for j in junk):
+            c["hi"] = [name0]
+    if rng.random() < 0.3:
+        ti = rng.choice(["Total", "--", "#"])
+        if not any((not l.strip()) or l.strip().startswith(ti) for l in c["lines"][1:]):
+            lines = lines + [rng.choice(["", "  ", ti + " 3 rows", " " + ti]) for _ in range(rng.choice([0, 1, 2]))]
+            c["ti"] = [ti]
+    c["lines"] = lines
+    return c
+
+
 def gen_delim(rng):
     if rng.random() < 0.7:
-        d = rng.choice([",", "|", ":", ";"])
+        d = rng.choice([",", "|", ":", ";", ",", "|", "::", "->", "aa"])
         n = rng.choice([1, 2, 3, 3, 5])
-        pool = [w for w in WORDS if d not in w and stripped(w)]
-        names = []
-        for i in range(n):
-            x = rng.choice(pool)
-            names.append(x if x not in names or rng.random() < 0.1 else x + str(i))
-        rows = []
-        for _ in range(rng.choice([0, 1, 2, 4])):
-            row = [rng.choice(pool + ["", ""]) for _ in range(n)]
-            if n == 1 and not row[0]:
-                row = ["z"]
-            rows.append(row)
         padded = rng.random() < 0.5
 
-        def pad(x):
-            return spaces(rng.choice([0, 1, 2])) + x + spaces(rng.choice([0, 1, 3])) if padded else x
-        lines = [d.join(pad(x) for x in names)] + [d.join(pad(x) for x in r) for r in rows]
-        return {"op": "delim", "d": d, "names": names, "rows": rows, "lines": lines, "oracle": True}
+        def cell(pool):
+            """(value, text as written): padded with spaces, passing sepFree"""
+            for _ in range(20):
+                x = rng.choice(pool)
+                w = spaces(rng.choice([0, 1, 2])) + x + spaces(rng.choice([0, 1, 3])) if padded else x
+                if sep_free(d, w):
+                    return x, w
+            return "z", "z"
+        pool = [w for w in WORDS if stripped(w)]
+        names, wnames = [], []
+        for i in range(n):
+            x, w = cell(pool)
+            if x in names and rng.random() >= 0.1:
+                x, w = x + str(i), w.replace(x, x + str(i), 1)
+                if not sep_free(d, w):
+                    x, w = "z" + str(i), "z" + str(i)
+            names.append(x)
+            wnames.append(w)
+        rows, wrows = [], []
+        for _ in range(rng.choice([0, 1, 2, 4])):
+            cs = [cell(pool + ["", ""]) for _ in range(n)]
+            if n == 1 and not cs[0][0]:
+                cs = [("z", "z")]
+            rows.append([x for x, _ in cs])
+            wrows.append([w for _, w in cs])
+        lines = [d.join(wnames)] + [d.join(r) for r in wrows]
+        return delim_around(rng, {"op": "delim", "d": d, "names": names, "rows": rows, "lines": lines, "oracle": True}, names[0])
     # white-space delimited
     n = rng.choice([1, 2, 3, 4])
     pool = [w for w in WORDS + HEADERS if w and not any(ch.isspace() for ch in w)]
     names = [rng.choice(pool) + str(i) for i in range(n)]
     rows = [[rng.choice(pool) for _ in range(n)] for _ in range(rng.choice([0, 1, 3]))]
-    lines = [spaces(rng.choice([0, 2])) + spaces(rng.choice([1, 3])).join(r) + spaces(rng.choice([0, 1])) for r in [names] + rows]
-    return {"op": "delim", "d": None, "names": names, "rows": rows, "lines": lines, "oracle": True}
+    lines = [rng.choice(["", "  ", "\t"]) + rng.choice([" ", "   ", "\t", " \t"]).join(r) + spaces(rng.choice([0, 1])) for r in [names] + rows]
+    c = {"op": "delim", "d": None, "names": names, "rows": rows, "lines": lines, "oracle": True}
+    if rng.random() < 0.3:
+        c["strip"] = False
+    return delim_around(rng, c, names[0])
 
 
 def gen_delim_irregular(rng):
@@ -699,8 +741,9 @@ def run(chk):
     scale = 3 if quick else 60
     chk.rule = ("documents RENDERED from generated data over the characters each format admits (fixed-width tables with headers that are "
                 "substrings of other headers, empty cells, cells with inner spaces or filling their column, leading junk, footers; "
-                "key/value documents with comments, blanks, duplicates, trailing comments; delimited tables with printable or white-space "
-                "delimiter; INI documents with repeated sections, DEFAULT, option names differing in case) plus an IRREGULAR stream per helper "
+                "key/value documents with comments, blanks, duplicates, trailing comments; delimited tables with a printable one- or two-character "
+                "delimiter (cells padded, passing sepFree) or white-space gaps (spaces/tabs), a sufficient max_splits, junk lines + "
+                "heading_ignore, footer lines + trailing_ignore; INI documents with repeated sections, DEFAULT, option names differing in case) plus an IRREGULAR stream per helper "
                 "(all flags, missing headings, empty input, ragged rows, empty separators); non-trivial = distinct case whose answer is a "
                 "non-empty, non-error result")
     chk.assumptions = [
